@@ -987,6 +987,51 @@ func filteredList(f *chk.Fn, g *chk.Graph, e ast.Expr, coll func(ast.Expr) bool,
 	return nApp == 1
 }
 
+// foundIndex: e (used at the site) is the index of an element of the collection for which cond(element) holds: an
+// integer local that is set to the key of a range loop over the collection only where cond holds for that iteration's
+// element, is otherwise only ever -1 (or its zero declaration before the search), and is known to be >= 0 at the site
+// (the normal form of slices.IndexFunc followed by `if idx >= 0`).
+func foundIndex(f *chk.Fn, g *chk.Graph, e ast.Expr, site chk.Site, coll func(ast.Expr) bool, cond func(elem func(ast.Expr) bool) chk.Guard) bool {
+	id, ok := ast.Unparen(e).(*ast.Ident)
+	if !ok {
+		return false
+	}
+	v := f.ObjOf(id)
+	if _, isVar := v.(*types.Var); !isVar {
+		return false
+	}
+	nSet := 0
+	for _, n := range assignsTo(f, v) {
+		as, isAs := n.(*ast.AssignStmt)
+		if !isAs || len(as.Lhs) != len(as.Rhs) {
+			return false
+		}
+		for i, l := range as.Lhs {
+			if lid, isId := l.(*ast.Ident); !isId || f.ObjOf(lid) != v {
+				continue
+			}
+			r := as.Rhs[i]
+			if f.IsConstInt(r, -1) {
+				continue
+			}
+			rs, _ := f.LoopOf(as).(*ast.RangeStmt)
+			if rs == nil || !(coll(rs.X) || coll(f.Resolve(rs.X))) || !rangeKey(f, rs)(r) {
+				return false
+			}
+			sites := g.Find(func(m ast.Node) bool { return m == ast.Node(as) })
+			if len(sites) != 1 || !g.Dominated(sites[0], cond(rangeVal(f, rs))) {
+				return false
+			}
+			nSet++
+		}
+	}
+	if nSet == 0 {
+		return false
+	}
+	isV := f.IsObj(v)
+	return g.Dominated(site, chk.GOr(g.GPat(true, "V >= 0", chk.H("V", isV)), g.GPat(true, "V > -1", chk.H("V", isV)), g.GPat(true, "V != -1", chk.H("V", isV))))
+}
+
 // isSetInsert: `S[k] = true` or `S[k] = struct{}{}` - the two spellings of adding k to a set kept in a map.
 func isSetInsert(f *chk.Fn) func(ast.Node) bool {
 	return func(n ast.Node) bool {
@@ -1243,7 +1288,7 @@ func isFreshContainer(f *chk.Fn, e ast.Expr) bool {
 // config.cidrContainsCIDR being exactly "same length and same network, or shorter prefix that contains the other's
 // base address" and on cidrsOverlap testing it in both directions.
 func cidrContainmentRule(p *chk.Prog, r *chk.Report) {
-	x := r.Rule("CIDR-CONTAINS", "B path (truth table)", "config.cidrContainsCIDR(outer, inner) is `(ol == il && outer.IP.Equal(inner.IP)) || (ol < il && outer.Contains(inner.IP))` for the two prefix lengths - no other condition decides; cidrsOverlap tests containment in both directions", 2)
+	x := r.Rule("CIDR-CONTAINS", "B path (truth table)", "config.cidrContainsCIDR(outer, inner) is `(ol == il && outer.IP.Equal(inner.IP)) || (ol < il && outer.Contains(inner.IP))` for the two prefix lengths - no other condition decides; the overlap test at its use is containment in both directions (VALIDATED-ACCUMULATOR)", 1)
 	f := need(x, p, cfgPkg, "", "cidrContainsCIDR")
 	if f != nil {
 		g := f.Graph()
@@ -1255,14 +1300,6 @@ func cidrContainmentRule(p *chk.Prog, r *chk.Report) {
 			chk.GAnd(g.GPat(true, "A < B", chk.H("A", ol), chk.H("B", il)), g.GPat(true, "O.Contains(I.IP)", chk.H("O", outer), chk.H("I", inner))))
 		why := g.BoolResultIs(spec)
 		x.Check("cidrContainsCIDR:truth-table", f.Pos(), why == "", "", "cidrContainsCIDR is not exactly `same length and same network, or shorter prefix containing the other's base address`: "+why)
-	}
-	co := need(x, p, cfgPkg, "", "cidrsOverlap")
-	if co != nil {
-		g := co.Graph()
-		a, b := isParamIdx(co, 0), isParamIdx(co, 1)
-		spec := chk.GOr(g.GPat(true, "cidrContainsCIDR(A, B)", chk.H("A", a), chk.H("B", b)), g.GPat(true, "cidrContainsCIDR(B, A)", chk.H("A", a), chk.H("B", b)))
-		why := g.BoolResultIs(spec)
-		x.Check("cidrsOverlap:both-directions", co.Pos(), why == "", "", "cidrsOverlap is not containment in either direction: "+why)
 	}
 }
 
